@@ -1,6 +1,7 @@
 package main
 
 import (
+	"go/constant"
 	"fmt"
 	"go/token"
 	"go/types"
@@ -120,34 +121,8 @@ func checkC04(c *Ctx) {
 				if !isCallTo(call, "bytes.EqualFold") && !isCallTo(call, "strings.EqualFold") {
 					c.Fail("R1", sname+" case-insensitive match of "+w, call.Pos(), "the error word is compared case-sensitively with \""+w+"\": Redis sends it in upper case, so it is never intercepted")
 				}
-				// prefix = Text[:Index(Text," ")]
-				if sl, ok := call.Call.Args[0].(*ssa.Slice); ok {
-					okp := sl.Low == nil && sl.High != nil
-					if okp {
-						if ic, ok := sl.High.(*ssa.Call); !ok || !(isCallTo(ic, "bytes.Index") || isCallTo(ic, "bytes.IndexByte")) {
-							okp = false
-						}
-					}
-					if !okp {
-						prefixOK = false
-					}
-				} else if ph, ok := call.Call.Args[0].(*ssa.Phi); ok {
-					for _, ed := range ph.Edges {
-						if isNilConst(ed) {
-							continue
-						}
-						sl, ok := ed.(*ssa.Slice)
-						okp := ok && sl.Low == nil && sl.High != nil
-						if okp {
-							if ic, ok := sl.High.(*ssa.Call); !ok || !(isCallTo(ic, "bytes.Index") || isCallTo(ic, "bytes.IndexByte")) {
-								okp = false
-							}
-						}
-						if !okp {
-							prefixOK = false
-						}
-					}
-				} else {
+				// prefix = Text[:Index(Text," ")], possibly computed by a helper
+				if !isFirstWord(call.Call.Args[0], 0) {
 					prefixOK = false
 				}
 				for _, r := range *call.Referrers() {
@@ -157,6 +132,33 @@ func checkC04(c *Ctx) {
 				}
 			})
 			c.Check(nfold == len(cb.words), "R1", sname+" words compared", site.Pos(), fmt.Sprintf("%d comparison(s) against %v", nfold, cb.words), fmt.Sprintf("expected a comparison with each of %v, found %d: an error kind is not intercepted", cb.words, nfold))
+			// only error replies are classified: the callback is reached only on the Error side of a test of the reply type
+			typeGuard := false
+			for _, d := range fn.Blocks {
+				iff, ok := d.Instrs[len(d.Instrs)-1].(*ssa.If)
+				if !ok {
+					continue
+				}
+				bo, ok := iff.Cond.(*ssa.BinOp)
+				if !ok || (bo.Op != token.EQL && bo.Op != token.NEQ) {
+					continue
+				}
+				f, base := loadedField(bo.X)
+				if f == nil || f.Name() != "Type" || !modType(base.Type(), redisPkg, "RespValue") {
+					continue
+				}
+				if cv, isC := constInt(bo.Y); !isC || !isErrorTypeConst(p, cv) {
+					continue
+				}
+				k := 0
+				if bo.Op == token.NEQ {
+					k = 1
+				}
+				if sb := d.Succs[k]; len(sb.Preds) == 1 && (sb == site.Block() || sb.Dominates(site.Block())) {
+					typeGuard = true
+				}
+			}
+			c.Check(typeGuard, "R1", sname+" only error replies are classified", site.Pos(), "the callback is reached only when the reply type is Error", "the redirect / cluster-down classification is applied to replies of any type: a stored value whose text starts with MOVED, ASK or CLUSTERDOWN is treated as a redirection when it is read back - the request is re-sent to the address written inside the value (or fails with a dial error), instead of the value being relayed")
 			c.Check(prefixOK, "R1", sname+" prefix is the first word", site.Pos(), "prefix = Text[:Index(Text, \" \")]", "the compared prefix is not exactly the first word of the error text")
 			// no bypass: from a matched edge, with callback != nil, no path to SetResponse avoiding the callback call
 			var nilFalse map[*ssa.BasicBlock]int = map[*ssa.BasicBlock]int{}
@@ -304,6 +306,9 @@ func checkC04(c *Ctx) {
 	} else {
 		c.Unresolved("R7", "upstream.createClientCalls")
 	}
+	c.Rule("R9", "a redirected child of a split command still completes its parent (shared with C02.R11 and C02.R9): hook lists own their spare capacity; no lock is held at a join that the joined goroutines need")
+	checkAppendableFieldsOwnTheirStorage(c, "R9")
+	c.withAlias(map[string]string{"R7": "R9"}, func() { checkWaitForCycles(c) })
 	c.Rule("R8", "a connection lost during failover loses no command (shared with C02.R3-R5): the terminal drain covers every queue, runs after the reader returned and the writer was joined, and an enqueue that can race with it re-tests the quit latch")
 	c.withAlias(map[string]string{"R3": "R8", "R4": "R8", "R5": "R8"}, func() { checkQueues(c, runOwn(c)) })
 
@@ -553,4 +558,65 @@ func checkRedirectCallback(c *Ctx, fn *ssa.Function, mrth *ssa.Function, isTrigg
 			c.OK("R5", site, in.Pos(), "the error is passed through only when it is malformed (wrong word count / neither MOVED nor ASK)")
 		}
 	})
+}
+
+// isFirstWord: the value is Text[:Index(Text, " ")] (nil when there is no space), directly, through a phi, or as the
+// result of a module helper all of whose returns are that.
+func isFirstWord(v ssa.Value, depth int) bool {
+	if depth > 3 {
+		return false
+	}
+	switch x := v.(type) {
+	case *ssa.Slice:
+		if x.Low != nil || x.High == nil {
+			return false
+		}
+		ic, ok := x.High.(*ssa.Call)
+		return ok && (isCallTo(ic, "bytes.Index") || isCallTo(ic, "bytes.IndexByte"))
+	case *ssa.Phi:
+		n := 0
+		for _, ed := range x.Edges {
+			if isNilConst(ed) {
+				continue
+			}
+			n++
+			if !isFirstWord(ed, depth+1) {
+				return false
+			}
+		}
+		return n > 0
+	case *ssa.Call:
+		g := calleeFn(x.Common())
+		if g == nil || !isModFn(g) || g.Blocks == nil {
+			return false
+		}
+		ok, n := true, 0
+		eachInstr(g, func(_ *ssa.BasicBlock, _ int, in ssa.Instruction) {
+			if ret, isRet := in.(*ssa.Return); isRet && len(ret.Results) == 1 {
+				if isNilConst(ret.Results[0]) {
+					return
+				}
+				n++
+				if !isFirstWord(ret.Results[0], depth+1) {
+					ok = false
+				}
+			}
+		})
+		return ok && n > 0
+	}
+	return false
+}
+
+// isErrorTypeConst: cv is the value of the RespType constant named Error.
+func isErrorTypeConst(p *Prog, cv int64) bool {
+	pk := p.TPkg(redisPkg)
+	if pk == nil {
+		return false
+	}
+	if k, ok := pk.Types.Scope().Lookup("Error").(*types.Const); ok {
+		if v, isI := constant.Int64Val(k.Val()); isI {
+			return v == cv
+		}
+	}
+	return false
 }
